@@ -86,7 +86,9 @@ func atPosition(br *bufio.Reader, blob []byte, n int) bool {
 // Detect a handful of package and signature file types based on the first few
 // bytes of the file contents.
 func Detect(r io.Reader) FileType {
-	br := bufio.NewReader(r)
+	// big enough to peek at a PE header wherever the 16 bits read from e_lfanew
+	// put it
+	br := bufio.NewReaderSize(r, 1<<16+8)
 	switch {
 	case hasPrefix(br, []byte{0xed, 0xab, 0xee, 0xdb}):
 		return FileTypeRPM
